@@ -27,7 +27,7 @@ EXIT_OK, EXIT_VIOLATION, EXIT_BROKEN = 0, 1, 2
 
 
 class Unit:
-    def __init__(self, name, harness, repo_units, debug_asserts=True, defines=(), nobody=(), extra_c=(), ubsan=True, cbmc_defines=(), wrap=()):
+    def __init__(self, name, harness, repo_units, debug_asserts=True, defines=(), nobody=(), extra_c=(), ubsan=True, cbmc_defines=(), wrap=(), prescreen=False):
         self.name = name
         self.harness = list(harness)            # harness .cpp files (relative to the check dir); they override repo symbols
         self.repo_units = list(repo_units)      # asmjit .cpp files relative to /repo
@@ -36,6 +36,8 @@ class Unit:
         self.nobody = list(nobody)              # functions whose translated bodies are dropped (body comes from extra_c)
         self.extra_c = list(extra_c)            # C stub files (relative to check dir or tools/) for cbmc + native xlat
         self.ubsan = ubsan
+        self.prescreen = prescreen      # large generated families: run every harness natively on random operands first and add the
+                                        # ones with a failing assertion to the solver's work list (selection heuristic only)
         self.wrap = list(wrap)              # libc symbols routed to the harness's verif_<sym> (ld --wrap natively, call renaming in ir2c)
 
 
@@ -225,10 +227,44 @@ class Check:
         must(['opt-14', '-O1', '-vectorize-loops=false', '-vectorize-slp=false', '-unroll-threshold=0', '-sink-common-insts=false', '-hoist-common-insts=false', red + '.0', '-o', red], 'opt -O1', timeout=1800)
         return red
 
-    def build_unit(self, uname):
+    def build_native(self, uname):
+        """native twin of the real code with every harness of the unit as entry point"""
         unit = self.units[uname]
         wd = os.path.join(self.work.dir, uname); os.makedirs(wd, exist_ok=True)
-        entries = [h.fn for h in self.spec.HARNESSES if h.unit == uname]
+        entries_all = [h.fn for h in self.spec.HARNESSES if h.unit == uname]
+        keep = ['main'] + ['__wrap_' + w for w in unit.wrap] + ['verif_' + w for w in unit.wrap]
+        nred = self.link_bc(unit, 'native', wd, entries_all + keep)
+        rt = os.path.join(wd, 'native_rt.o')
+        must(['clang-14', '-O1', '-c', os.path.join(TOOLS, 'native_rt.c'), '-o', rt], 'native_rt')
+        real = os.path.join(wd, 'real')
+        must(['clang++-14', '-O1', nred, rt, '-o', real, '-rdynamic', '-ldl', '-w', '-Wl,--unresolved-symbols=ignore-all', '-Wl,-z,lazy'] + ['-Wl,--wrap=' + w for w in unit.wrap], 'native real link', timeout=1800)
+        self.built.setdefault(uname, {}).update(wd=wd, real=real)
+        return real
+
+    def prescreen(self, uname, already):
+        """Returns harness names of the unit whose native random runs show a failing (non-witness) assertion."""
+        real = self.built[uname]['real']
+        names = [h.fn for h in self.spec.HARNESSES if h.unit == uname and h.fn not in already and not h.known]
+        seed0 = (self.seed * 7919 + 5) % (1 << 30)
+        def one(fn):
+            try:
+                r = subprocess.run([real, fn, '--seeds', str(seed0), '250'], capture_output=True, text=True, timeout=120)
+            except Exception:
+                return None
+            for l in r.stdout.split('\n'):
+                if ' FAILED: ' in l and any(not p.strip().startswith('WITNESS:') for p in l.split(' FAILED: ')[1].split(' | ')):
+                    return fn
+            return None
+        with ThreadPoolExecutor(max_workers=min(12, self.pool.jobs)) as ex:
+            sus = [x for x in ex.map(one, names) if x]
+        return len(names), sus
+
+    def build_unit(self, uname, entries=None):
+        unit = self.units[uname]
+        wd = os.path.join(self.work.dir, uname); os.makedirs(wd, exist_ok=True)
+        if entries is None:
+            entries = [h.fn for h in self.spec.HARNESSES if h.unit == uname]
+        self.built.setdefault(uname, {})['entries'] = list(entries)
         info = dict(name=uname, repo_units=[dict(file=r, sha1=sha1(os.path.join(REPO, r))) for r in unit.repo_units],
                     harness_sources=unit.harness, debug_asserts=unit.debug_asserts, stubs=unit.extra_c + unit.nobody)
         t0 = time.time()
@@ -245,16 +281,11 @@ class Check:
         gb = os.path.join(wd, 'unit.gb')
         must(['goto-cc', '-D__CPROVER__', '-I' + INC, c] + extra + ['-o', gb], 'goto-cc', timeout=1800)
         # --- native twins
-        keep = ['main'] + ['__wrap_' + w for w in unit.wrap] + ['verif_' + w for w in unit.wrap]
-        nred = self.link_bc(unit, 'native', wd, entries + keep)
-        rt = os.path.join(wd, 'native_rt.o')
-        must(['clang-14', '-O1', '-c', os.path.join(TOOLS, 'native_rt.c'), '-o', rt], 'native_rt')
-        real = os.path.join(wd, 'real')
-        must(['clang++-14', '-O1', nred, rt, '-o', real, '-rdynamic', '-ldl', '-w', '-Wl,--unresolved-symbols=ignore-all', '-Wl,-z,lazy'] + ['-Wl,--wrap=' + w for w in unit.wrap], 'native real link', timeout=1800)
+        real = self.built.get(uname, {}).get('real') or self.build_native(uname)
         xlat = os.path.join(wd, 'xlat')
         must(['clang-14', '-O1', '-w', '-I' + INC, c] + extra + [os.path.join(TOOLS, 'native_rt.c'), '-o', xlat, '-rdynamic', '-ldl', '-Wl,--unresolved-symbols=ignore-all', '-Wl,-z,lazy'], 'native xlat build', timeout=1800)
         info['build_s'] = round(time.time() - t0, 1)
-        self.built[uname] = dict(wd=wd, gb=gb, real=real, xlat=xlat, info=info)
+        self.built.setdefault(uname, {}).update(wd=wd, gb=gb, real=real, xlat=xlat, info=info)
         return info
 
     def build_san(self, uname):
@@ -262,7 +293,7 @@ class Check:
         if 'san' in b:
             return b['san']
         unit = self.units[uname]
-        entries = [h.fn for h in self.spec.HARNESSES if h.unit == uname]
+        entries = self.built[uname].get('entries') or [h.fn for h in self.spec.HARNESSES if h.unit == uname]
         red = self.link_bc(unit, 'san', b['wd'], entries + ['main'] + ['__wrap_' + w for w in unit.wrap] + ['verif_' + w for w in unit.wrap])
         san = os.path.join(b['wd'], 'real_san')
         must(['clang++-14', '-O1', '-g', '-fsanitize=address,undefined', red, os.path.join(b['wd'], 'native_rt.o'), '-o', san, '-rdynamic', '-ldl', '-w', '-Wl,--unresolved-symbols=ignore-all', '-Wl,-z,lazy'] + ['-Wl,--wrap=' + w for w in unit.wrap], 'native san link', timeout=1800)
@@ -449,8 +480,21 @@ class Check:
             raise BrokenCheck('no harness selected')
         unames = sorted(set(h.unit for h in hs))
         log('[%s] tier=%s seed=%d units=%s harnesses=%d work=%s' % (self.pid, self.tier, self.seed, unames, len(hs), self.work.dir))
+        self.prescreen_info = {}
+        if not self.only:
+            byname = {h.fn: h for h in self.spec.HARNESSES}
+            for u in unames:
+                if not self.units[u].prescreen:
+                    continue
+                self.build_native(u)
+                total, sus = self.prescreen(u, set(h.fn for h in hs))
+                cap = 16 if self.tier == 'quick' else 64
+                self.prescreen_info[u] = dict(harnesses_screened=total, suspects=len(sus), added=sus[:cap])
+                log('[%s] unit %s: native pre-screen of %d harnesses on random operands: %d with a failing assertion, %d added to the solver work list' % (self.pid, u, total, len(sus), len(sus[:cap])))
+                hs += [byname[n] for n in sus[:cap]]
+        per_unit = {u: [h.fn for h in hs if h.unit == u] for u in unames}
         with ThreadPoolExecutor(max_workers=4) as ex:
-            infos = list(ex.map(self.build_unit, unames))
+            infos = list(ex.map(lambda u: self.build_unit(u, per_unit[u]), unames))
         for i in infos:
             log('[%s] unit %s: %d functions encoded, %d IR lines -> %d C lines, %d untranslated, build %.1fs' % (
                 self.pid, i['name'], len(i['functions_encoded']), i['ir_lines'], i['c_lines'], len(i['untranslated']), i['build_s']))
@@ -494,7 +538,7 @@ def main(argv):
                     raise BrokenCheck('--replay needs --harness')
                 a.harness = [m.group(1)]; chk.only = a.harness
             h = [x for x in spec.HARNESSES if x.fn == a.harness[0]][0]
-            chk.build_unit(h.unit)
+            chk.build_unit(h.unit, [h.fn])
             r = chk.replay_stream(h, a.replay, san=True)
             print(r['out']); print(r['err'])
             return 0
@@ -573,7 +617,7 @@ def main(argv):
                   units=infos, harnesses=results,
                   outside_bounds=getattr(spec, 'OUTSIDE', []),
                   solver_s=round(sum(r.get('solver_s') or 0 for r in results), 1),
-                  known_findings=known_lines, broken=broken),
+                  known_findings=known_lines, broken=broken, prescreen=getattr(chk, 'prescreen_info', {})),
               assumptions=getattr(spec, 'ASSUMPTIONS', []) + [
                   'clang 14 front end + opt -O1 produce IR faithful to the C++ source (UBSan traps are inserted before optimisation and are proof obligations)',
                   'tools/ir2c.py translation (validated on every run by running the real code and the generated C natively on identical random nondet streams)',
